@@ -65,7 +65,7 @@ Seen(f) == Filtered(Decoded(f.proto, f.wire), f.fop)      \* the pair the forwar
    (the HTTP/2 stream layer adds the buffer); a filter setting trailers on a HEADERS-only request does, and the HTTP/2
    client stream of the pinned tree cannot send it (nil body dereferenced in MClientStream.writeDataAndTrailer - the
    proxy recovers, cleans the stream without a reply and the client waits for ever; reported, not driven). *)
-Expressible(f) == ~(f.proto = "http2" /\ Seen(f).data = "absent" /\ Seen(f).trailers = "present")
+Expressible(f) == TRUE    \* every form is driven (the HTTP/2 form "trailers, no body buffer" was a finding: fixed in /repo)
 
 Forms == { f \in [proto : Protos, wire : UNION { Wires(p) : p \in Protos }, fop : Fops] :
              f.wire \in Wires(f.proto) /\ Expressible(f) }
